@@ -28,7 +28,7 @@ Omit(cfg, T0, v) == LET T == Resolve(T0) IN
     [] T.k = "jsonarr" -> v.e = <<>>
 
 \* the null.* codecs are built on the default time codec whatever the instance options (finding F19 for C12)
-NullCfg(cfg) == [cfg EXCEPT !.protoTime = FALSE]
+NullCfg(cfg) == IF cfg.nullProto THEN cfg ELSE [cfg EXCEPT !.protoTime = FALSE]     \* nullProto: the ideal reading, used to name finding F19
 SInt(n) == [neg |-> FALSE, mag |-> NatLimbs(n)]
 TimeBody(cfg, v) ==
   IF cfg.protoTime
